@@ -83,6 +83,12 @@ CASES = [
     ("o() = X() + Y(k) + Z(k)", {"o": "", "X": "", "Y": "d", "Z": "s"}),
     ("A(i,j,k) = B(k,i,j) * c(k)", {"A": "dss", "B": "s1s2d0", "c": "d"}),
     ("a(i) = b(i) * b(i)", {"a": "s", "b": "s"}),
+    # every operator class between participants of one index (participants are collected per node class)
+    ("a(i) = b(i) - c(i)", {"a": "d", "b": "s", "c": "d"}),
+    ("r(i) = b(i) - A(i,j) * x(j)", {"r": "d", "b": "d", "A": "ds", "x": "d"}),
+    ("a(i) = d(i) * (b(i) - c(i))", {"a": "d", "d": "s", "b": "d", "c": "d"}),
+    ("a(i) = b(i) * c(i) - d(i) * e(i)", {"a": "d", "b": "d", "c": "s", "d": "s", "e": "d"}),
+    ("a(i) = 2 * b(i) - (c(i) + d(i))", {"a": "d", "b": "d", "c": "d", "d": "s"}),
 ]
 
 
@@ -233,7 +239,18 @@ def concrete_cases():
 def run(tier):
     t0 = time.time()
     rep = common.Reporter("C10")
-    cases = CASES if tier == "quick" else CASES + [
+    from .. import corpus as _corpus
+
+    # every expression shape of the kernel corpus with all-dense formats (C10 is about the argument checks, which
+    # depend on the assignment's participants, not on formats): cheap, and closes shape-specific gaps
+    shape_cases = []
+    seen_shapes = {a for a, _ in CASES}
+    for shape in _corpus.SHAPES_CORE + _corpus.SHAPES_ORDER3:
+        if shape in seen_shapes:
+            continue
+        seen_shapes.add(shape)
+        shape_cases.append((shape, {n: "d" * o for n, o in _corpus.tensor_orders(shape).items()}))
+    cases = CASES + shape_cases if tier == "quick" else CASES + shape_cases + [
         ("A(i,j) = B(i,j) + C(i,j)", {"A": "ss", "B": "ss", "C": "ds"}),
         ("a(i) = X(i) + Y(i,k) - Z(k,i)", {"a": "d", "X": "s", "Y": "ds", "Z": "d1s0"}),
         ("A(i,j) = B(i,k,l) * C(k,j) * D(l,j)", {"A": "dd", "B": "sss", "C": "dd", "D": "dd"}),
